@@ -974,6 +974,7 @@ def Op.client : Op → Option Nat
   | .connectReuse k _ => some k
   | .releaseHook k => some k
   | .acceptFault => none
+  | .connectNoSpawn k => some k
 
 /-- the state right after a new connection has joined the listen queue, before the accept loop looks -/
 def joined (s : St) (k : Nat) (cred : Cred) : St :=
@@ -1002,7 +1003,8 @@ theorem step_connect {s t : St} {o : Obs} {k : Nat} {cred : Cred} (h : step s (.
 
 /-- every action of a connected client: containment -/
 theorem step_eff {s t : St} {o : Obs} (op : Op) (hop : op ≠ .serverClose) (hcon : ∀ k c, op ≠ .connect k c)
-    (hcon2 : ∀ k j, op ≠ .connectReuse k j) (hnf : op ≠ .acceptFault) (h : step s op = .ok (t, o)) :
+    (hcon2 : ∀ k j, op ≠ .connectReuse k j) (hnf : op ≠ .acceptFault) (hns : ∀ k, op ≠ .connectNoSpawn k)
+    (h : step s op = .ok (t, o)) :
     Eff s t (fun j => some j = op.client ∨ (s.cli j).phase = .backlog ∨ s.cfg.kind = .oneshot ∨
       ((∃ k, op = .releaseHook k) ∧ s.cfg.spare = false ∧ s.cfg.kind = .pool)) := by
   have key : ∀ (k : Nat) (c' : Cli) (l : List Item), c'.cred = (s.cli k).cred → c'.phase = (s.cli k).phase →
@@ -1067,6 +1069,7 @@ theorem step_eff {s t : St} {o : Obs} (op : Op) (hop : op ≠ .serverClose) (hco
       · exact Or.inr (Or.inr (Or.inl hj))
   | connectReuse k j => exact absurd rfl (hcon2 k j)
   | acceptFault => exact absurd rfl hnf
+  | connectNoSpawn k => exact absurd rfl (hns k)
   | releaseHook k =>
     simp only [step] at h
     split at h
